@@ -308,3 +308,4 @@ pub mod test_utils;
 #[cfg(iroh_verif)] pub mod verif_hooks_ident;
 #[cfg(iroh_verif)] pub mod verif_hooks_socktx;
 #[cfg(iroh_verif)] pub mod verif_hooks_lookup;
+#[cfg(iroh_verif)] pub mod verif_hooks_remote;
